@@ -18,9 +18,43 @@ type C02Case struct {
 	Sweep int `json:"sweep"`
 	// Muts: mutations of (nested) containers after the first String(); String() is then checked again
 	Muts []CloneMut `json:"muts,omitempty"`
+	// Parsed: when set, the container is not built from Root but obtained by parsing this text, which
+	// spells its values the way the lenient parser tolerates (0x1F, 1_000, +1, .5, 1E5, 1.50, T ...);
+	// if the library rejects the text the case is skipped. What String() must describe is the content the
+	// container then has (Get / TypeOf), whatever the spelling it was read from.
+	Parsed string `json:"parsed,omitempty"`
+}
+
+var lenientSpellings = []string{"0x1F", "0X1f", "0b101", "0o17", "017", "010", "1_000", "+1", ".5", "5.", "1E5", "1e5", "1.50", "1.0", "-0", "-0.0", "0e0",
+	"1e+2", "1E+02", "-.5", "+.5", "0x1p4", "00", "-010", "1e05", "100e-2", "2.50e0", "T", "F", "t", "f", "TRUE", "nul", "tru", "1.", "0.10", "1e0", "12", "-7", "\"s\"", "\"\\u0041\"", "\"\\/\""}
+
+func genLenientText(t *rapid.T) string {
+	n := drawInt(t, 1, 4, "nitems")
+	items := make([]string, n)
+	for i := range items {
+		items[i] = lenientSpellings[drawIdx(t, len(lenientSpellings), "sp")]
+		if oneIn(t, 5, "nest") {
+			items[i] = "[" + items[i] + "]"
+		}
+	}
+	if drawBool(t, "asobject") {
+		var sb strings.Builder
+		sb.WriteByte('{')
+		for i, it := range items {
+			if i > 0 {
+				sb.WriteByte(',')
+			}
+			sb.WriteString("\"k" + string(rune('0'+i)) + "\":" + it)
+		}
+		return sb.String() + "}"
+	}
+	return "[" + strings.Join(items, ",") + "]"
 }
 
 func GenC02(t *rapid.T) *C02Case {
+	if oneIn(t, 12, "parsed") {
+		return &C02Case{Sweep: -1, Root: VList(), Parsed: genLenientText(t)}
+	}
 	c := &C02Case{Root: genTreeCase(t), Sweep: -1}
 	if oneIn(t, 5, "remutate") {
 		c.Muts = genNestedMuts(t)
@@ -73,6 +107,42 @@ func textNonTrivial(text string) bool {
 }
 
 func CheckC02(c *C02Case, st *Stats) error {
+	if c.Parsed != "" {
+		var cont any
+		var perr error
+		out, err := guarded("parse", func() (any, error) {
+			if strings.HasPrefix(c.Parsed, "[") {
+				l, e := at.ParseList(c.Parsed)
+				if l == nil {
+					return nil, e
+				}
+				return l, e
+			}
+			o, e := at.ParseObject(c.Parsed)
+			if o == nil {
+				return nil, e
+			}
+			return o, e
+		})
+		if err != nil {
+			return nil // a parser problem is C04's business
+		}
+		cont, perr = out.c, out.err
+		if cont == nil || perr != nil {
+			st.Count("parsed_route.rejected")
+			return nil
+		}
+		want, err := Snap(cont)
+		if err != nil {
+			return err
+		}
+		st.Count("parsed_route.accepted")
+		st.MarkNonTrivial()
+		if err := checkJSONText(stringOf(cont), want, st); err != nil {
+			return errf("container obtained by parsing %q: %v", c.Parsed, err)
+		}
+		return nil
+	}
 	root := c.Root
 	if c.Sweep >= 0 {
 		root = sweepTree(c.Sweep)
@@ -130,7 +200,7 @@ func CheckC02(c *C02Case, st *Stats) error {
 
 func init() {
 	Register("C02",
-		"rapid-generated value trees as in C01 plus an exhaustive sweep of all 1,112,064 Unicode scalar values (each once inside a value and once inside a key, 256 per container). The text of String() is read by a strict RFC 8259 scanner written in the harness (cross-checked against encoding/json on every case) and its token tree compared with the generator's tree. Non-trivial = the text contains an escape, a non-ASCII byte or an exponent-form number. Distinct = distinct FNV-64a hash of the case JSON.",
+		"rapid-generated value trees as in C01 plus an exhaustive sweep of all 1,112,064 Unicode scalar values (each once inside a value and once inside a key, 256 per container). One case in twelve obtains its container by parsing a short text in the spellings the lenient parser tolerates (0x1F, 1_000, +1, .5, 1E5, 1.50, T ...) and is skipped if the library rejects it. The text of String() is read by a strict RFC 8259 scanner written in the harness (cross-checked against encoding/json on every case) and its token tree compared with the generator's tree. Non-trivial = the text contains an escape, a non-ASCII byte or an exponent-form number. Distinct = distinct FNV-64a hash of the case JSON.",
 		GenC02, CheckC02)
 	_ = at.TypeNil
 }
